@@ -546,6 +546,13 @@ def _parse_float(value: Any) -> float:
     return float(value)
 
 
+def _enum_to_json(enum_class: Type[Enum], value: int) -> Union[str, int]:
+    """The JSON form of an enum value: its name, or its number if the enum does not
+    define it (proto3 enums are open, unknown numbers stay numbers in JSON)."""
+    name = enum_class.try_value(value).name
+    return int(value) if name is None else name
+
+
 def _dump_float(value: float) -> Union[float, str]:
     """Dump the given float to JSON
 
@@ -1614,19 +1621,19 @@ class Message(ABC):
                         if isinstance(value, typing.Iterable) and not isinstance(
                             value, str
                         ):
-                            output[cased_name] = [enum_class(el).name for el in value]
+                            output[cased_name] = [_enum_to_json(enum_class, el) for el in value]
                         else:
                             # transparently upgrade single value to repeated
-                            output[cased_name] = [enum_class(value).name]
+                            output[cased_name] = [_enum_to_json(enum_class, value)]
                     elif value is None:
                         if include_default_values:
                             output[cased_name] = value
                     elif meta.optional:
                         enum_class = field_types[field_name].__args__[0]
-                        output[cased_name] = enum_class(value).name
+                        output[cased_name] = _enum_to_json(enum_class, value)
                     else:
                         enum_class = field_types[field_name]  # noqa
-                        output[cased_name] = enum_class(value).name
+                        output[cased_name] = _enum_to_json(enum_class, value)
                 elif meta.proto_type in (TYPE_FLOAT, TYPE_DOUBLE):
                     if field_is_repeated:
                         output[cased_name] = [_dump_float(n) for n in value]
